@@ -159,10 +159,31 @@ class Encoder:
             return sx("unop", type(e.op).__name__, self.expr(e.operand))
         if isinstance(e, ast.Compare) and len(e.ops) == 1 and len(e.comparators) == 1:
             return sx("cmp", type(e.ops[0]).__name__, self.expr(e.left), self.expr(e.comparators[0]))
+        if isinstance(e, ast.Subscript):
+            # constant subscripts only (every index an int, or a slice of ints): the model transcribes the node
+            # emission of `_translate_subscript_expr` for them; tensor-valued indices stay outside
+            sl = e.slice
+            elts = sl.elts if isinstance(sl, ast.Tuple) else [sl]
+            return sx("subscript", self.expr(e.value), sx(*[self.index(x) for x in elts]))
         if isinstance(e, (ast.BoolOp, ast.IfExp)):
             names = sorted({n.id for n in ast.walk(e) if isinstance(n, ast.Name)})
             return sx("other", *names)
         raise Unmodelled("expression " + type(e).__name__)
+
+    @staticmethod
+    def const_int(x):
+        if isinstance(x, ast.Constant) and isinstance(x.value, int) and not isinstance(x.value, bool):
+            return x.value
+        if (isinstance(x, ast.UnaryOp) and isinstance(x.op, ast.USub) and isinstance(x.operand, ast.Constant)
+                and isinstance(x.operand.value, int) and not isinstance(x.operand.value, bool)):
+            return -x.operand.value
+        raise Unmodelled("non-constant subscript")
+
+    def index(self, x: ast.AST) -> str:
+        if isinstance(x, ast.Slice):
+            parts = [("_" if c is None else str(self.const_int(c))) for c in (x.lower, x.upper, x.step)]
+            return sx("sl", *parts)
+        return sx("k", str(self.const_int(x)))
 
     # ---- statements
     def names_of(self, t: ast.AST) -> list[str]:
